@@ -53,7 +53,7 @@ def canaries():
 
 def plan(tier):
     if tier == 'quick':
-        return {'runs': 16000, 'wall': 240, 'batch': 8, 'shrink_s': 45, 'selfcheck': 8}
+        return {'runs': 30000, 'wall': 300, 'batch': 8, 'shrink_s': 45, 'selfcheck': 8}
     return {'runs': 2500000, 'wall': 2.5 * 3600, 'batch': 32, 'shrink_s': 120, 'selfcheck': 32}
 
 
